@@ -300,6 +300,9 @@ func genC12(r *Rng, tier string) *World {
 			}
 		}
 		op.Rev = r.P(0.35)
+		if r.P(0.1) {
+			op.Reenter = 1 + r.Intn(5) // that callback validates something else with schemas of its own before it returns
+		}
 		ops = append(ops, op)
 	}
 	w.Tasks = [][]Op{ops}
@@ -319,6 +322,12 @@ func runC12(x *X) *Violation {
 		res := x.Exec("0:"+strconv.Itoa(i), op)
 		if res.Panic != "" {
 			return &Violation{Class: "C12/panic mode=" + op.Kind, Detail: "call did not return: " + res.Panic}
+		}
+		if res.NestBad != "" {
+			return &Violation{Class: "C12/nested-execution-wrong-result mode=" + op.Kind, Detail: res.NestBad}
+		}
+		if res.Nested > 0 {
+			x.Probes["nested_executions"]++
 		}
 		if s := x.E.SentinelsChanged(); s != "" {
 			return &Violation{Class: "C12/caller-owned-issue-modified mode=" + op.Kind, Detail: s + "; issues " + fmt.Sprint(res.PCTs())}
